@@ -79,15 +79,15 @@ Inductive fs_step :=
 | RenameTmp (dest : list bytes)
 | DropTmp.
 
+Fixpoint writes (dest : list bytes) (s : list item) : list fs_step :=
+  match s with
+  | [] => [RenameTmp dest]
+  | Chunk b :: r => WriteTmp b :: writes dest r
+  | _ :: _ => [DropTmp]
+  end.
+
 Definition save_steps (dest : list bytes) (stream : list item) : list fs_step :=
-  let dir := removelast dest in
-  let fix writes (s : list item) : list fs_step :=
-    match s with
-    | [] => [RenameTmp dest]
-    | Chunk b :: r => WriteTmp b :: writes r
-    | _ :: _ => [DropTmp]
-    end in
-  MkdirAll dir :: CreateTmp dir :: writes stream.
+  MkdirAll (removelast dest) :: CreateTmp (removelast dest) :: writes dest stream.
 
 Record fsys := { fs_files : list (list bytes * bytes); fs_tmp : option bytes }.
 
